@@ -767,6 +767,11 @@ func (x *ctx) mapDelete(st *state, m, k term, mt types.Type) {
 func (x *ctx) chanSend(st *state, fr *frame, in *ssa.Send) {
 	ch := x.get(fr, st, in.Chan).t
 	cnt := x.ghostGet(st, "ghost_chanSent", []srtT{sRef}, bvSort(64), []term{ch})
+	if x.spec == 0 && x.con != nil && x.con.Flags["nonblocking-sends"] {
+		// no receiver can exist before the function returns the channel: the send must fit the buffer
+		cp := x.ghostGet(st, "ghost_chanCap", []srtT{sRef}, bvSort(64), []term{ch})
+		x.oblige(st, "send-within-capacity", "", "chan", x.binop(token.LSS, cnt, cp, types.Typ[types.Int]).s, "a send on a channel nobody can receive from yet must not block")
+	}
 	x.ghostWrite(st, "ghost_chanSent", []term{ch}, x.binop(token.ADD, cnt, mkbv(1, 64), types.Typ[types.Int]))
 }
 
